@@ -7,7 +7,8 @@
 EXTENDS Reexpress, TLC, Json, IOUtils
 
 CONSTANT NBlocks
-Traces == JsonDeserialize(IOEnv.TRACE_FILE).traces
+ASSUME TLCSet(1, JsonDeserialize(IOEnv.TRACE_FILE).traces)     \* parsed once, not once per worker
+Traces == TLCGet(1)
 VARIABLES blk, tid
 
 AbsI(x) == IF x < 0 THEN -x ELSE x
